@@ -183,6 +183,10 @@ SCRIPTS['C18'] += [
        errWrites=True),
     sc('f-bare-middleware', ['auth', 'lock', 'confirm', 'logout'],
        [login('u1', 1), probe(k='bare'), ev('RestartConfirm', 'none', pid='u1'), probe(k='bare'), ev('AdminLock', 'none', pid='u1'), probe(k='bare')]),
+    sc('f-bare-confirm-only', ['auth', 'confirm', 'logout'],
+       [login('u1', 1), probe(k='bare'), ev('RestartConfirm', 'none', pid='u1'), probe(k='bare'), probe()]),
+    sc('f-bare-lock-only', ['auth', 'lock', 'logout'],
+       [login('u1', 1), probe(k='bare'), ev('AdminLock', 'none', pid='u1'), probe(k='bare'), probe()]),
     sc('f-register-confirm-silent', ['auth', 'register', 'confirm', 'lock', 'logout'],
        [ev('RegisterPost', pid='u2', pw=2), ev('ConfirmGet', tok=1), login('u2', 2), probe()], seed=[U('u1', 1)]),
     sc('f-recover-login-2fa', ['auth', 'recover', 'totp', 'remember', 'logout'],
